@@ -84,7 +84,16 @@ def handle (op : String) (arg : Sexp) : String :=
     match tree? t with
     | none => "bad-op"
     | some t =>
-      if op = "apply" ∨ op = "visit" then
+      if op = "exists" then
+        -- `TreeNode::exists(f)` = `apply` with Stop where `f` answers true; Jump counts as "not here"
+        match ds.mapM vdec? with
+        | none => "bad-op"
+        | some ds =>
+          let ds := ds.map (fun d => match d with | .j => VDec.c | d => d)
+          match apply (mkVF "d" ds) {} t with
+          | (s, none) => logStr s ++ " err"
+          | (s, some d) => logStr s ++ " " ++ (if d == TreeNodeRecursion.Stop then "t" else "f")
+      else if op = "apply" ∨ op = "visit" then
         match ds.mapM vdec? with
         | none => "bad-op"
         | some ds =>
